@@ -48,7 +48,7 @@ func AssignToBytes(dst, src any, buf AccumulativeBuffer) (ok bool) {
 				offset := len(bb)
 				bb, err = x2bytes.ToBytes(bb, src)
 				if ok = err == nil; ok {
-					*dst.(*[]byte) = bb[offset:]
+					*dst.(*[]byte) = bb[offset:len(bb):len(bb)]
 				}
 				buf.ReleaseBytes(bb)
 			}
